@@ -195,6 +195,7 @@ type formInfo struct {
 	kind   byte              // 'd' declaration (always kept), 'q' quantified axiom, 'g' ground fact, 'm' mixed (quantifier below the top)
 	pats   []map[string]bool // per pattern: symbols that must be reachable
 	syms   map[string]bool   // all symbols of the form
+	consts map[string]bool   // symbols that never occur in function position: constants the axiom is about
 	defSym string            // define-fun: the defined name
 }
 
@@ -202,6 +203,19 @@ var (
 	formCacheMu sync.Mutex
 	formCache   = map[string]*formInfo{}
 )
+
+// collectHeads gathers the symbols that occur in function position.
+func collectHeads(e *psx, out map[string]bool) {
+	if e.list == nil {
+		return
+	}
+	if len(e.list) > 0 && e.list[0].list == nil {
+		out[e.list[0].atom] = true
+	}
+	for _, x := range e.list {
+		collectHeads(x, out)
+	}
+}
 
 func containsQuant(e *psx) bool {
 	if e.list == nil {
@@ -234,6 +248,14 @@ func analyzeForm(f string) *formInfo {
 		collectSyms(body, map[string]int{}, fi.syms)
 		if len(body.list) >= 3 && body.list[0].atom == "forall" {
 			fi.kind = 'q'
+			heads := map[string]bool{}
+			collectHeads(body, heads)
+			fi.consts = map[string]bool{}
+			for sym := range fi.syms {
+				if !heads[sym] && !strings.HasSuffix(sym, "_empty") {
+					fi.consts[sym] = true
+				}
+			}
 			bound := map[string]int{}
 			for _, b := range body.list[1].list {
 				if len(b.list) > 0 {
@@ -349,6 +371,11 @@ func prunePrelude(pre, body string) (string, int) {
 							break
 						}
 					}
+				}
+				// an axiom about particular constants (a string literal, say) is of no use to a
+				// query that does not mention them
+				if inc && !subsetOf(fi.consts, R) {
+					inc = false
 				}
 			case 'g':
 				inc = subsetOf(fi.syms, R)
